@@ -26,7 +26,7 @@ func instrument(simDir string) (scratch, modfile string, err error) {
 	if err != nil {
 		return "", "", err
 	}
-	src := "/repo"
+	src := repoDir
 	err = filepath.WalkDir(src, func(path string, d fs.DirEntry, werr error) error {
 		if werr != nil {
 			return werr
@@ -70,22 +70,28 @@ func instrument(simDir string) (scratch, modfile string, err error) {
 		return scratch, "", err
 	}
 	fmt.Fprintf(os.Stderr, "instrumented scratch copy: %d lock calls rewritten\n", total)
+	modfile, err = altModfile(simDir, scratch)
+	return scratch, modfile, err
+}
+
+// altModfile writes a copy of sim/go.mod whose replace directive points at dir.
+func altModfile(simDir, dir string) (string, error) {
 	mod, err := os.ReadFile(filepath.Join(simDir, "go.mod"))
 	if err != nil {
-		return scratch, "", err
+		return "", err
 	}
-	alt := strings.Replace(string(mod), "=> /repo", "=> "+scratch, 1)
+	alt := strings.Replace(string(mod), "=> /repo", "=> "+dir, 1)
 	if alt == string(mod) {
-		return scratch, "", fmt.Errorf("go.mod has no replace directive to /repo")
+		return "", fmt.Errorf("go.mod has no replace directive to /repo")
 	}
-	modfile = filepath.Join(simDir, fmt.Sprintf("instr-%d.mod", os.Getpid()))
+	modfile := filepath.Join(simDir, fmt.Sprintf("alt-%d.mod", os.Getpid()))
 	if err := os.WriteFile(modfile, []byte(alt), 0o644); err != nil {
-		return scratch, "", err
+		return "", err
 	}
 	if sum, err := os.ReadFile(filepath.Join(simDir, "go.sum")); err == nil {
 		_ = os.WriteFile(strings.TrimSuffix(modfile, ".mod")+".sum", sum, 0o644)
 	}
-	return scratch, modfile, nil
+	return modfile, nil
 }
 
 func copyFile(src, dst string) error {
